@@ -73,6 +73,9 @@ def run(tier):
     out = tlc_out(ck, wd, "PackedHostile", "PackedHostile.cfg", "packed")
     strict(ck, "packed-deltas", "fv-total", ["c01", "packed", "--cases", out, "--out", os.path.join(wd, "d.ndjson")])
     os.remove(out)
+    out = tlc_out(ck, wd, "SimpleGlyphMC", "SimpleGlyphMC_%s.cfg" % tier, "simpleglyph", workers=8)
+    strict(ck, "simple-glyph-points", "fv-total", ["c01", "simpleglyph", "--cases", out, "--trace-every", 100000, "--out", os.path.join(wd, "s.ndjson")])
+    os.remove(out)
     out = tlc_out(ck, wd, "ContextClosure", "ContextClosure.cfg", "layhostile", workers=2)
     strict(ck, "layout-hostile", "fv-total", ["c01", "layhostile", "--cases", out, "--out", os.path.join(wd, "r.ndjson")])
     os.remove(out)
